@@ -22,7 +22,7 @@ class _Replay(dict):
             return self[key]
         if key.startswith("set_store#"):
             return "h_lru.cache_option"
-        if "#signals:" in key and key.startswith(("LRUCacheStore.store_blob#", "LRUCacheStore.sync_paths#")):
+        if "#signals:" in key and key.startswith(("LRUCacheStore.store_blob#", "LRUCacheStore.sync_paths#", "LRUCacheStore.fetch_blob#")):
             return "h_lru.faulty_inner"
         return default
 
